@@ -1184,6 +1184,7 @@ func runC22Delivery(r *vkit.Run, d c22Delivery, watchdog time.Duration) (fired [
 func runC22(tier, replay string) {
 	r := vkit.Begin("C22", "fault_enumeration", tier)
 	r.SetRule("part A: generated histories of object mutations (put, copy, complete-multipart, delete, delete-version, multi-delete, put/delete tagging, user transition, lifecycle expiration / transition via the event-override context) over 4 buckets (no rules / all events / generated 1-4 rules with family wildcards, exact types, prefix+suffix filters, overlapping rules, topic+queue+function destinations, EventBridge flag; unversioned / enabled / suspended; rule sets replaced mid-history); for EVERY mutation every failure point is enumerated: inner storage call fails before / after doing its work, part-store PutPart fails before / after writing, the n-th outbox insert fails before / after writing for n = 1..rows, then the fault-free run. part B: delivery scenarios (MaxAttempts 1-4, MinBackoff 5-40 ms, caps, concurrency 1/4, batch 1/8) with a scripted publisher (fail k times then succeed, k up to MaxAttempts, or always). distinct = distinct (operation, versioning, fault point, rows expected) tuples + delivery configurations")
+	r.Assume(fmt.Sprintf("process time zone = %s (set by ./check for this engine: UTC would hide local-time / UTC mix-ups in stored timestamps)", time.Now().Location()))
 	r.Assume("reference = own re-implementation of S3 event-type selection (exact type or family wildcard) and prefix/suffix key filters; expected event types derive from the operation and the bucket's versioning state, never from pithos' return values")
 	r.Assume("object state = ListObjectVersions (ids, flags, size, ETag, class, LastModified) + tags per version + pending uploads and their parts of all buckets, read from the real storage below the middleware; outbox rows are read directly from notification_outbox_entries")
 	r.Assume("delivery oracle compares only timestamps pithos itself wrote (claim now = updated_at, released next_attempt_at, release now); the wall clock is used for the drain watchdog only (expiry = inconclusive); a pump mutation wakes the dispatcher between its 1 s idle ticks")
